@@ -32,7 +32,42 @@ def fams_c18(tier, seed):
     ]
 
 
+def first_op(d):
+    fd = d.get("first_diff")
+    return fd[1].split(" ")[0] if fd else "END"
+
+
+def rel_ops(*names):
+    names = set(names)
+    return lambda d: first_op(d) in names or bool(d.get("monitor"))
+
+
+def fams_c12(tier, seed):
+    if tier == "quick":
+        return [
+            Family("handles5", "exh", "HcK", "1", depth=5, configs=("w:s", "w:a")),
+            Family("handles4mix", "exh", "HCKyvAB", "0,u", depth=4, configs=("l:a",)),
+            Family("rand-handles", "rand", "HCKyvABS", "0,1,u", length=50, n=3000, configs=("w:s", "b:a")),
+        ]
+    return [
+        Family("handles6", "exh", "HcK", "1", depth=6, configs=("w:s", "w:a")),
+        Family("handles5mix", "exh", "HCKyvAB", "0,u", depth=5, configs=("l:a", "w:s")),
+        Family("rand-handles", "rand", "HCKyvABS", "0,1,u", length=80, n=40000, configs=("w:s", "b:a", "l:s", "z:a")),
+    ]
+
+
 PROPS = {
+    "C12": dict(
+        level="proof",
+        lean_targets=["Kanal.Props.C12"],
+        props_files=["Kanal/Props/C12.lean"],
+        leancheck=["Kanal.Props.C12"],
+        families=fams_c12,
+        relevant=rel_ops("scount", "rcount", "isclosed", "clone", "drop", "conv", "close"),
+        trusted=["specgen/seqdrv text protocol", "counts are Nat in the model: the u32 wrap at 2^32 live handles is outside the model"],
+        assumptions=COMMON_ASSUME + ["theorems are over the atomic-channel model (every call one atomic step, blocking calls register+complete); the interleaving-level lift is DESIGN §3.3"],
+        explanation="CountInv proved inductive over every atomic step (all labels): counters = live-handle ledger while open, zero for ever once closed; conversions are the identity on the state",
+    ),
     "C18": dict(
         level="translation_validation",
         lean_targets=["Kanal.Props.C18"],
